@@ -168,7 +168,7 @@ func checkInputUnmodified(r *Run, prog *Program, pfx string) {
 	}
 	n := 0
 	for _, fa := range prog.FieldAccesses(prog.ModuleFuncs()) {
-		if fa.Kind != "write" || fa.Field != "data" || fa.Struct == nil || fa.Struct.Obj().Name() != "parser" || fa.Struct.Obj().Pkg().Path() != grammarPath {
+		if fa.Kind != "write" || fa.Field != fDATA || fa.Struct == nil || fa.Struct.Obj().Name() != "parser" || fa.Struct.Obj().Pkg().Path() != grammarPath {
 			continue
 		}
 		n++
